@@ -12,7 +12,7 @@
 (* compared; everything else is adopted from the observation, so a defect  *)
 (* that belongs to another property cannot raise this property's alarm.    *)
 (***************************************************************************)
-EXTENDS TreeOps, Json, IOUtils
+EXTENDS TreeStep, Json, IOUtils
 
 Rec == ndJsonDeserialize(IOEnv.TRACE)
 Tab == JsonDeserialize(IOEnv.TABLE)
@@ -67,16 +67,6 @@ Adopt(o, dd, post) ==
   ELSE St([i \in {j \in 0..(Cap(dd) - 1) : ObsLeaf(o, j) # Z} |-> ObsLeaf(o, i)],
           o.next,
           IF EmptiesSeen(o) THEN (0..(o.next - 1)) \ SeqSet(o.empties) ELSE post.fl)
-
-\* ---- the specification of one call ----
-SpecStep(dd, s, op) ==
-  CASE op.c = "set"      -> SetF(dd, s, op.i, op.v)
-    [] op.c = "delete"   -> DelF(dd, s, op.i)
-    [] op.c = "append"   -> AppF(dd, s, op.v)
-    [] op.c = "range"    -> RangeF(dd, s, op.s, op.vs)
-    [] op.c = "override" -> OvrF(dd, s, op.s, op.vs, SeqSet(op.rem))
-    [] op.c = "init"     -> InitF(dd, s, op.vs)
-    [] OTHER             -> R({"ok"}, s)          \* set_meta, compute_root: no effect on the tree
 
 \* ---- observables per property ----
 \* C06 / C08: leaves, high-water mark, every subtree root, root
@@ -233,45 +223,6 @@ Good == More /\ LineOK(Rec[l]) /\ Advance(Rec[l]) /\ UNCHANGED used
 \* --- KF "pm-override-batch": rln::pm_tree_adapter::PmTree::override_range, transcribed ------------
 \* (the repository's own suite pins part of this behaviour, so it cannot be repaired with the
 \* suite unedited).  idx = removal list sorted ascending (duplicates kept), vs = leaves.
-SortedRem(rem) == SortSeq(rem, LAMBDA a, b : a < b)
-PmOutcome(res, lv, nx, fl) == [res |-> res, lv |-> lv, next |-> nx, fl |-> fl]
-PmUnchanged(res, s) == PmOutcome(res, s.lv, s.next, s.fl)
-PmWrite(lv, start, vals) ==       \* write the sequence vals at start..start+Len(vals)-1 (sparse, canonical)
-  LET n == Len(vals)
-      keep == {k \in DOMAIN lv : k \notin Rng(start, n)}
-      wr == {k \in Rng(start, n) : vals[k - start + 1] # Z}
-  IN [k \in keep \cup wr |-> IF k \in wr THEN vals[k - start + 1] ELSE lv[k]]
-PmOverride(dd, s, op) ==
-  LET cap == Pow2(dd)
-      idx == SortedRem(op.rem)
-      vs == op.vs
-      n == Len(vs)
-      m == Len(idx)
-      start == op.s
-  IN IF n = 0 /\ m >= 2 THEN
-          \* remove_indices: the whole span first..last is reset, and counted as used
-          LET st == idx[1]
-              en == idx[m] + 1
-          IN IF en > cap THEN PmUnchanged("err", s)
-             ELSE PmOutcome("ok", PmWrite(s.lv, st, [k \in 1..(en - st) |-> Z]), Max(s.next, en), s.fl \ (st..(en - 1)))
-     ELSE IF n >= 1 /\ m >= 1 THEN
-          \* remove_indices_and_set_leaves
-          LET minI == idx[1]
-              maxI == start + n
-          IN IF maxI < minI \/ start < minI THEN PmUnchanged("panic", s)         \* usize underflow
-             ELSE LET len == maxI - minI
-                      vals == [j \in 1..len |->
-                                 LET v == minI + j - 1 IN
-                                 IF v < start THEN (IF v \in SeqSet(idx) THEN Z ELSE Lf(s, v)) ELSE vs[v - start + 1]]
-                  IN IF start + len > cap THEN PmUnchanged("err", s)
-                     ELSE LET lv2 == PmWrite(s.lv, start, vals)
-                              nx2 == Max(s.next, start + len)
-                          IN IF \E i \in SeqSet(idx) : i >= cap
-                             THEN \* index out of bounds on the flag vector, after the tree was written
-                                  PmOutcome("panic", lv2, nx2, s.fl \ SeqSet(idx))
-                             ELSE PmOutcome("ok", lv2, nx2, (s.fl \ SeqSet(idx)) \cup (start..(len - 1)))
-     ELSE PmUnchanged("none", s)         \* other shapes are delegated to set / delete / set_range: not this finding
-
 PmOverrideMatches(e) ==
   /\ e.be = "pm" /\ e.op.c = "override"
   /\ ((Len(e.op.vs) = 0 /\ Len(e.op.rem) >= 2) \/ (Len(e.op.vs) >= 1 /\ Len(e.op.rem) >= 1))
